@@ -55,12 +55,12 @@ PROPS = {
         "explanation": "theorems addFrame_ok_iff, addFrame_err_applies, framesLeft_spec, build_spec, offer_inv + the real PacketBuilder observed after every step (accept/reject, expected_frame_count, frame_count, frames_left, build twice); reasons validated by the Lean predicate appliesB, everything else compared",
     },
     "C08": {
-        "groups": {"can_dec_enum": Q(73728, 589824), "can_enc": Q(160000, 1500000), "can_dec": Q(160000, 1500000), "can_rt": Q(160000, 1500000)},
+        "groups": {"frt_can": Q(12000, 90000), "can_dec_enum": Q(73728, 589824), "can_enc": Q(160000, 1500000), "can_dec": Q(160000, 1500000), "can_rt": Q(160000, 1500000)},
         "rule": "frames: 8 flag combinations x both id kinds x ids (boundaries, single bits, uniform) x addresses x dataLen 0..=8 (+ ill-formed frames, judged as outside the property); CAN frames as in C04 plus encodings of canonical frames; distinct by input text; non-trivial = identifier/frame with at least one non-zero field",
         "explanation": "theorems toCan_layout, id_fields, fromCan_toCan, specFrames_canCanonical + real to_bxcan_frame / from_bxcan_frame / their composition; a differing line on a well-formed frame or constructible CAN frame is a concrete C08 violation (model = layout)",
     },
     "C09": {
-        "groups": {"usart_dec_enum": Q(65793, 65793), "usart_enc": Q(160000, 1500000), "usart_rt": Q(160000, 1500000), "usart_dec": Q(160000, 1000000)},
+        "groups": {"frt_usart": Q(12000, 90000), "usart_dec_enum": Q(65793, 65793), "usart_enc": Q(160000, 1500000), "usart_rt": Q(160000, 1500000), "usart_dec": Q(160000, 1000000)},
         "rule": "frames as in C08; USART bodies as in C04 (valid encodings and their single-fault mutations make up half of the stream); distinct by input text; non-trivial = frame with at least one data byte, or body of at least 5 bytes",
         "explanation": "theorems toUsart_layout, toUsart_transparent, fromUsart_toUsart, decodeBody_encode + real to_usart_frame / from_usart_frame (through the real cobs crate); encode side and round trip: a differing line on a well-formed frame is a concrete C09 violation",
     },
@@ -123,7 +123,7 @@ def nontrivial(group, inp, obs):
         return not t[1].endswith(":0:-")
     if g in ("usart_enc", "usart_rt", "can_enc", "can_rt"):
         return not t[1].endswith(":0:0000000000000000")
-    if g in ("to_frames", "frag_rt"):
+    if g in ("to_frames", "frag_rt", "frt_can", "frt_usart"):
         m = re.search(r"x(\d+)$", t[-1])
         return bool(m) and int(m.group(1)) > 8
     if g == "builder":
